@@ -78,6 +78,19 @@ def histories(tier):
         # ... and one that returns a linear combination of an argument and the inner result
         outr2 = [{"op": "item", "a": R(2), "i": 0}, sub("inner2", [R(3)], inn, R(6)), BIN("add", R(3), R(7))]
         H.append(("nestedlin/%d,%d" % (a, b), [S(a), U(b), sub("outer3", [R(0)], outr2, R(8)), VAL(R(9))]))
+        # nested inconsistency: poly(v) = scale(v) + v is called twice; the OUTER bodies are identical, the INNER ones differ
+        def poly(base, extra):
+            # registers: base = args list of poly, base+1 = v, base+2 = args list of scale, base+3 = its v, then the inner steps,
+            # base+3+nin = result of the inner call, base+4+nin = the sum (returned); the call's own result is base+5+nin
+            inner = [{"op": "item", "a": R(base + 2), "i": 0}, BIN("mul", R(base + 3), R(base + 3))] + ([BIN("mul", R(base + 4), R(base + 3))] if extra else [])
+            nin = len(inner)
+            body = [{"op": "item", "a": R(base), "i": 0}, sub("scale", [R(base + 1)], inner, R(base + 2 + nin)), BIN("add", R(base + 3 + nin), R(base + 1))]
+            return body, R(base + 4 + nin), base + 5 + nin
+        b1, r1, res1 = poly(2, False)
+        b2, r2, res2 = poly(res1 + 1, True)
+        H.append(("nestedincons/%d,%d" % (a, b), [S(a), U(b), sub("poly", [R(0)], b1, r1), sub("poly", [R(1)], b2, r2), VAL(R(res2))]))
+        b3, r3, res3 = poly(res1 + 1, False)
+        H.append(("nestedcons/%d,%d" % (a, b), [S(a), U(b), sub("poly", [R(0)], b1, r1), sub("poly", [R(1)], b3, r3), VAL(R(res3))]))
         # nested: outer(x,y) calls inner(x) and multiplies
         inner_base = 2 + 1 + 2      # outer args list r2, items r3 r4, then the inner call starts at r5
         inner = [{"op": "item", "a": R(5), "i": 0}, BIN("mul", R(6), R(6))]
@@ -91,6 +104,59 @@ def histories(tier):
     cmpb = [{"op": "item", "a": R(1), "i": 0}, BIN("eq", R(2), {"c": 3})]
     H.append(("cmpinside/3", [S(3), sub("h", [R(0)], cmpb, R(2)), {"op": "peek", "a": {"c": 0}}]))
     return H
+
+
+def from_model(hist):
+    """QapCtx history -> op-record steps (see QapCtx.tla: priv, mul, pub, call(f, n), ret(m))"""
+    top = []
+    stack = [{"steps": top, "wires": []}]
+    reg = 0
+    for h in hist:
+        cur = stack[-1]
+        a = h["a"]
+        if a == "priv":
+            cur["steps"].append(S(3)); cur["wires"].append(reg); reg += 1
+        elif a == "pub":
+            cur["steps"].append(U(2)); cur["wires"].append(reg); reg += 1
+        elif a == "mul":
+            cur["steps"].append(BIN("mul", R(cur["wires"][-1]), R(cur["wires"][-1]))); cur["wires"].append(reg); reg += 1
+        elif a == "call":
+            n = h["n"]
+            w = cur["wires"]
+            args = [R(w[-1 - (k % len(w))]) for k in range(n)]
+            body = []
+            fr = {"steps": body, "wires": [], "args": args, "fname": h["f"], "argsreg": reg}
+            reg += 1
+            for k in range(n):
+                body.append({"op": "item", "a": R(fr["argsreg"]), "i": k}); fr["wires"].append(reg); reg += 1
+            stack.append(fr)
+        elif a == "ret":
+            fr = stack.pop()
+            ret = R(fr["wires"][-1]) if h["n"] == 1 else {"c": 7}
+            par = stack[-1]
+            par["steps"].append(sub(fr["fname"], fr["args"], fr["steps"], ret))
+            if h["n"] == 1:
+                par["wires"].append(reg)
+            reg += 1
+    return top
+
+
+def model_histories(run, tier):
+    import os
+    from harness import tlc
+    with common.scratch("qc_") as d:
+        cf = os.path.join(d, "gen.cfg")
+        open(cf, "w").write("SPECIFICATION Spec\nCONSTANT MaxLen = %d\nCONSTANT MaxDepth = 2\nCONSTANT Fns = {\"f\", \"g\"}\nINVARIANT UniqueCalls\nINVARIANT UniqueBlocks\n"
+                            "INVARIANT GlueShape\nINVARIANT SplitSeesAll\nINVARIANT EmitBeh\nCHECK_DEADLOCK FALSE\n" % (6 if tier == "quick" else 8))
+        res = tlc.run("QapCtx", cfg=cf, workers=8)
+    run.add_tlc(res, "QapCtx.tla: unique call ids / block names, glue shape, split sees every equation")
+    if res.violated:
+        run.violation({"stage": "design", "invariant": res.violated, "tlc_state": res.state, "summary": "QapCtx.tla violates %s: %s" % (res.violated, res.state.get("hist"))})
+        return []
+    behs = [json.loads(json.loads(r)) for r in sorted(set(res.tagged("BEH")))]
+    behs = [b for b in behs if any(h["a"] == "call" for h in b["hist"])]
+    step = max(1, len(behs) // (250 if tier == "quick" else 2500))
+    return behs[::step]
 
 
 def run_one(args):
@@ -139,6 +205,9 @@ def run_one(args):
 def main(tier):
     run = common.Run("C12", tier)
     H = histories(tier)
+    behs = model_histories(run, tier)
+    mh = [("model/%d" % i, from_model(b["hist"])) for i, b in enumerate(behs)]
+    H = H + mh
     with common.scratch("qap_") as d:
         with ThreadPoolExecutor(common.NPROC) as ex:
             cases = list(ex.map(run_one, [(hid, steps, d, k) for k, (hid, steps) in enumerate(H)]))
@@ -158,6 +227,26 @@ def main(tier):
             run.violation({"stage": "qap", "invariant": res.violated, "tlc_state": res.state, "history": next(h for h in H if h[0] == c["id"]),
                            "prove_err": c["prove_err"], "functions": c["fns"], "digests": c["digests"],
                            "summary": "%s for run %s (prove: %s)" % (res.violated, c["id"], c["prove_err"] or "split ran")})
+    if not run.violations and behs:
+        # conformance of the files with the mechanism spec's prediction (ids, block names and sizes, glue records, equation count)
+        byid = {c["id"]: c for c in cases}
+        pairs = []
+        for i, b in enumerate(behs):
+            c = byid["model/%d" % i]
+            impl = {"calls": [[f["fname"], f["call"]] for f in c["fns"]],
+                    "blocks": [[bl["ctx"], bl["bn"], len(bl["wires"])] for bl in c["blocks"]],
+                    "glues": [[g["c1"], g["b1"], g["c2"], g["b2"]] for g in c["eqs"] if g["t"] == "glue"],
+                    "neq": len([e for e in c["eqs"] if e["t"] == "eq"])}
+            pairs.append({"id": c["id"], "model": b, "impl": impl})
+        r = common._tlc_on_chunk("QapConf", "QapConf.cfg", {"pairs": pairs}, 8, False, False, "3g")
+        run.states += r.distinct
+        run.extra["qapctx_model_drift"] = bool(r.violated)
+        if r.error:
+            raise common.MachineryError("QapConf: " + r.error)
+        if r.violated:
+            pr = pairs[int(r.state["tid"]) - 1]
+            print("MODEL-DRIFT: %s: files of %s differ from QapCtx.tla: model calls %s blocks %s neq %s ; files %s" % (
+                r.violated, pr["id"], [c_["id"] for c_ in pr["model"]["calls"]], [(b_["ctx"], b_["bn"], b_["n"]) for b_ in pr["model"]["blocks"]], pr["model"]["neq"], pr["impl"]))
     return run.finish(RULE, assumptions=["the qaptools executables are failing stubs: only the files pysnark itself writes are judged", "small-prime instantiation p=251"],
                       trusted=["TLC 1.8", "harness/decoders/qap.py (parser)", "harness/qaprun.py (observer)"])
 
